@@ -809,3 +809,80 @@ Proof. intros (Hok & Hopen & Hids & Hrange & Hrr) Hnd. cbv zeta.
   rewrite !map_app, Hse_eq. reflexivity. Qed.
 
 End PollStep.
+
+(* ---- the steps ---- *)
+Lemma nodup_distinct : forall l, NoDup l -> distinct l = true.
+Proof. induction 1 as [|x r Hni _ IH]; [reflexivity|]. cbn [distinct]. rewrite IH, andb_true_r.
+  destruct (existsb (Z.eqb x) r) eqn:E; [|reflexivity]. apply existsb_exists in E as (y & Hy & Hxy).
+  assert (x = y) by lia. subst. contradiction. Qed.
+
+Definition sessions_distinct (st : sstate) : Prop :=
+  let '(absent, s, _) := st in NoDup (map slot_session (absent ++ s_images s)).
+
+Lemma sessions_ok_true absent (imgs : list slot) :
+  NoDup (map slot_session (absent ++ imgs)) -> distinct (map os_session (map oslot_of absent ++ map oslot_of imgs)) = true.
+Proof. intros H. rewrite <- map_app, map_os_session. apply nodup_distinct. assumption. Qed.
+
+Lemma proj_nil_of_absent se xs : (forall x, In x xs -> fr_session x <> se) -> proj se xs = [].
+Proof. intros H. unfold proj. induction xs as [|x r IH]; [reflexivity|]. cbn [filter].
+  destruct (fr_session x =? se) eqn:E; [exfalso; apply (H x (or_introl eq_refl)); lia|]. apply IH. intros; apply H; right; assumption. Qed.
+
+Theorem spoll_step m nslots ost st limit :
+  st_rel ost st -> st_inv nslots st -> sessions_distinct st ->
+  let '(ob, st') := sstep m nslots st (SPoll limit) in
+  judge_sop ost (SPoll limit) ob = true /\ st_rel (onext20 ost (SPoll limit) ob) st' /\ st_inv nslots st' /\ sessions_distinct st'.
+Proof. destruct st as [[absent s] bs]. destruct ost as [[[oa op] orr] spec]. intros (-> & -> & -> & Hspec) Hinv Hnd.
+  unfold sessions_distinct in Hnd. cbn [sstep].
+  pose proof (poll_core m nslots pk_poll (fun _ => []) (fun _ => []) cnt_len eq_refl (pk_poll_facts m) (fun _ _ => eq_refl)
+                absent s bs limit Hinv Hnd) as Hcore. cbv zeta in Hcore.
+  destruct (poll_inner pk_poll s limit) as [[[total s'] ds] polled].
+  destruct Hcore as (C1 & C2 & C3 & C4 & C5 & C6 & C7 & C8 & C9 & C10).
+  destruct (assemble bs (map frag_of ds)) as [bs' out] eqn:Ea. cbn [all_slots].
+  set (raw := raw_obs m (absent ++ s_images s)) in *.
+  set (ps := positions nslots 0 (absent ++ s_images s')) in *.
+  assert (Hnd_imgs : NoDup (map slot_session (s_images s))) by (rewrite map_app in Hnd; apply nodup_app_r in Hnd; assumption).
+  pose proof (sessions_judged m raw (s_images s) C8 Hnd_imgs ds C9 bs (s_images s) spec (fun _ H => H) Hnd_imgs
+                (fun sl _ => Hspec (slot_session sl))) as Hsj. cbv zeta in Hsj. rewrite Ea in Hsj. cbn [fst snd] in Hsj.
+  destruct Hsj as [Hs1 Hs2].
+  pose proof (known_sessions_ok m raw (s_images s) C8 ds C9 bs) as Hk. rewrite Ea in Hk. cbn [snd] in Hk.
+  split; [|split; [|split]].
+  - cbn [judge_sop]. rewrite (sessions_ok_true absent (s_images s) Hnd). cbn [negb]. rewrite C3. cbn [andb].
+    rewrite map_length.
+    destruct (rr_next (Z.of_nat (length (s_images s))) (s_rr s)) as [start rr1] eqn:Er. cbn [fst] in C1, C2.
+    change jp_poll with (jp_gen (fun _ : oslot => []) cnt_len).
+    change (fun sh : list fobs => Z.of_nat (length sh)) with cnt_len.
+    rewrite C1, C2, Hs1, Hk. cbn [out_eqb]. rewrite Z.eqb_refl. reflexivity.
+  - unfold st_rel, onext20. rewrite C4, C5, map_length. split; [reflexivity|]. split; [reflexivity|]. split; [symmetry; exact C6|].
+    intros se. rewrite Hs2. destruct (existsb (fun sl => slot_session sl =? se) (s_images s)) eqn:Ee; [reflexivity|].
+    rewrite Hspec. destruct (assemble_session se (map frag_of ds) bs) as [_ Hst]. rewrite Ea in Hst. cbn [fst] in Hst.
+    rewrite Hst, proj_nil_of_absent; [reflexivity|].
+    intros x Hx Heq. apply in_map_iff in Hx as (d & <- & Hd). destruct (C9 d Hd) as (sl & Hsl & Hin).
+    rewrite Forall_forall in C8. destruct (C8 sl Hsl) as (Hok & _ & _).
+    pose proof (seg_frames_session sl d Hok Hin) as Hse. cbn [frag_of fr_session] in Heq.
+    assert (existsb (fun sl0 => slot_session sl0 =? se) (s_images s) = true).
+    { apply existsb_exists. exists sl. split; [assumption|lia]. } congruence.
+  - exact C7.
+  - unfold sessions_distinct. rewrite C10. exact Hnd. Qed.
+
+Theorem scpoll_step m nslots ost st limit salt tab :
+  st_rel ost st -> st_inv nslots st -> sessions_distinct st ->
+  let '(ob, st') := sstep m nslots st (SCPoll limit salt tab) in
+  judge_sop ost (SCPoll limit salt tab) ob = true /\ st_rel (onext20 ost (SCPoll limit salt tab) ob) st' /\
+  st_inv nslots st' /\ sessions_distinct st'.
+Proof. destruct st as [[absent s] bs]. destruct ost as [[[oa op] orr] spec]. intros (-> & -> & -> & Hspec) Hinv Hnd.
+  unfold sessions_distinct in Hnd. cbn [sstep].
+  pose proof (poll_core m nslots (pk_cpoll salt tab) (script_for salt tab) (os_script salt tab) (consumed_count salt tab) eq_refl
+                (pk_cpoll_facts m salt tab) (os_script_ok salt tab) absent s bs limit Hinv Hnd) as Hcore. cbv zeta in Hcore.
+  destruct (poll_inner (pk_cpoll salt tab) s limit) as [[[total s'] ds] polled].
+  destruct Hcore as (C1 & C2 & C3 & C4 & C5 & C6 & C7 & C8 & C9 & C10). cbn [all_slots].
+  set (raw := raw_obs m (absent ++ s_images s)) in *.
+  set (ps := positions nslots 0 (absent ++ s_images s')) in *.
+  split; [|split; [|split]].
+  - cbn [judge_sop]. rewrite (sessions_ok_true absent (s_images s) Hnd). cbn [negb]. rewrite C3. cbn [andb].
+    rewrite map_length.
+    destruct (rr_next (Z.of_nat (length (s_images s))) (s_rr s)) as [start rr1] eqn:Er. cbn [fst] in C1, C2.
+    change (jp_cpoll salt tab) with (jp_gen (os_script salt tab) (consumed_count salt tab)).
+    rewrite C1, C2. cbn [out_eqb]. rewrite Z.eqb_refl. reflexivity.
+  - unfold st_rel, onext20. rewrite C4, C5, map_length. split; [reflexivity|]. split; [reflexivity|]. split; [symmetry; exact C6|exact Hspec].
+  - exact C7.
+  - unfold sessions_distinct. rewrite C10. exact Hnd. Qed.
